@@ -36,11 +36,15 @@ def _pred_cases(draw):
     idx = st.integers(0, len(cls) - 1)
     lab = draw(st.lists(idx, min_size=n, max_size=n))
     pred = draw(st.lists(idx, min_size=n, max_size=n))
-    wk = draw(st.sampled_from(["none", "none", "int", "quarter", "float"]))
+    wk = draw(st.sampled_from(["none", "none", "int", "quarter", "float", "bigint"]))
     if wk == "none":
         w = None
     elif wk == "int":
         w = draw(st.lists(st.integers(1, 9), min_size=n, max_size=n))
+    elif wk == "bigint":
+        # integer weights (multiplicities of pre-aggregated rows) whose totals need more than 53 bits
+        w = draw(st.lists(st.one_of(st.integers(1, 9), st.sampled_from([2**55 + 1, 2**53 + 1, 2**57 + 3])),
+                          min_size=n, max_size=n))
     elif wk == "quarter":
         w = [x / 4 for x in draw(st.lists(st.integers(1, 40), min_size=n, max_size=n))]
     else:
